@@ -178,11 +178,12 @@ func Assume(c bool) {
 func IsAssumeFailure(e any) bool { _, ok := e.(assumeFailed); return ok }
 
 func Assert(c bool, label string) {
+	mu.Lock()
+	Observed = append(Observed, fmt.Sprintf("assert:%s=%v", label, c))
 	if !c {
-		mu.Lock()
 		Failures = append(Failures, label)
-		mu.Unlock()
 	}
+	mu.Unlock()
 }
 
 func Fail(label string) { Assert(false, label) }
@@ -190,6 +191,7 @@ func Fail(label string) { Assert(false, label) }
 func Reach(label string) {
 	mu.Lock()
 	Reached[label]++
+	Observed = append(Observed, "reach:"+label)
 	mu.Unlock()
 }
 
@@ -197,7 +199,7 @@ func Tag(key, val string) {}
 
 func Observe(label string, v ...any) {
 	mu.Lock()
-	Observed = append(Observed, label+"="+fmtArgs(v))
+	Observed = append(Observed, "obs:"+label+"="+fmtArgs(v))
 	mu.Unlock()
 }
 
